@@ -227,6 +227,39 @@ impl TimedCache {
         }
     }
 
+    /// Put a batch of items, which were just read from the database, into the cache. An item
+    /// is only cached if there is no (unexpired) entry for it yet: while the read was underway,
+    /// a write may already have put a more recent version of the record into the cache, which
+    /// must not be replaced by the older one.
+    pub async fn batch_put_if_absent(&self, records: &[DbRecord]) {
+        self.clean().await;
+
+        for record in records.iter() {
+            if let DbRecord::Azks(azks_ref) = &record {
+                let mut azks_guard = self.azks.write().await;
+                if azks_guard.is_none() {
+                    *azks_guard = Some(DbRecord::Azks(azks_ref.clone()));
+                }
+            } else {
+                let now = Instant::now();
+                let item = CachedItem {
+                    expiration: now + self.item_lifetime,
+                    data: record.clone(),
+                };
+                match self.map.entry(record.get_full_binary_id()) {
+                    dashmap::mapref::entry::Entry::Occupied(mut entry) => {
+                        if entry.get().expiration <= now {
+                            entry.insert(item);
+                        }
+                    }
+                    dashmap::mapref::entry::Entry::Vacant(entry) => {
+                        entry.insert(item);
+                    }
+                }
+            }
+        }
+    }
+
     /// Flush the cache.
     pub async fn flush(&self) {
         self.map.clear();
